@@ -386,6 +386,10 @@ func (db *SingleBucketBackend) PutObject(
 	objectFilePath := filepath.FromSlash(objectName)
 	objectDir := filepath.Dir(objectFilePath)
 
+	if keyConflict(db.fs, ".", objectName) {
+		return result, invalidKeyError(objectName)
+	}
+
 	if objectDir != "." {
 		if err := db.fs.MkdirAll(objectDir, 0777); err != nil {
 			return result, err
